@@ -326,6 +326,9 @@ func newFiles(fdp *descriptorpb.FileDescriptorProto) (*protoregistry.Files, prot
 
 // NewFixture builds descriptors and a mux and registers all services, in the
 // given order of methods. Registration errors and panics are recorded, not raised.
+// fixtureConfigFirst: give ServiceConfigOption BEFORE FilesOption / TypesOption
+var fixtureConfigFirst bool
+
 func NewFixture(methods []*MethodSpec, sc *serviceconfig.Service, opts ...larking.MuxOption) (*Fixture, error) {
 	fdp := buildFile(methods)
 	files, fd, err := newFiles(fdp)
@@ -335,7 +338,11 @@ func NewFixture(methods []*MethodSpec, sc *serviceconfig.Service, opts ...larkin
 	fx := &Fixture{Files: files, File: fd, Types: dynamicpb.NewTypes(files), Methods: methods}
 	all := []larking.MuxOption{larking.FilesOption(files), larking.TypesOption(fx.Types)}
 	if sc != nil {
-		all = append(all, larking.ServiceConfigOption(sc))
+		if fixtureConfigFirst { // the order of the options is the caller's choice
+			all = append([]larking.MuxOption{larking.ServiceConfigOption(sc)}, all...)
+		} else {
+			all = append(all, larking.ServiceConfigOption(sc))
+		}
 	}
 	all = append(all, opts...)
 	mux, err := larking.NewMux(all...)
